@@ -6,7 +6,11 @@ package c05
 // to two levels deep), with a tsx.Recorder as teamserver and a private loot tree.
 //
 // Model: per agent X, the set of request ids of tasks that were ISSUED TO X (operator
-// tasks and the mem-file chunk tasks of its uploads) and not yet completed.  Things the
+// tasks and the mem-file chunk tasks of its uploads) and not yet completed.  Tasks are
+// issued in both ways the teamserver has: a bare job queued with AddJobToQueue ("issue"),
+// and an operator request through the real TaskPrepare ("optask", "upload"; opcmds_test.go),
+// which is where operator-side per-request state (BofCallbacks) and mem-file chunk tasks
+// come from.  Things the
 // teamserver queues on its own - relay jobs (SOCKS writes, request id 0) and the
 // COMMAND_PIVOT jobs that wrap a descendant's task for its ancestors - are not tasks with
 // a request id and add nothing to anybody's outstanding set.  The statement's exemption
@@ -33,12 +37,15 @@ import (
 )
 
 type OpE struct {
-	Kind    string `json:"kind"` // issue upload relay handout callback session
+	Kind    string `json:"kind"` // issue optask upload relay handout callback session
 	Agent   int    `json:"agent"`
-	Cmd     int    `json:"cmd,omitempty"`     // issue: index into issueCmds
+	Cmd     int    `json:"cmd,omitempty"`     // issue: index into issueCmds; optask: index into opCmds
 	Src     string `json:"src,omitempty"`     // callback: outstanding completed foreign never zero
 	Pick    int    `json:"pick,omitempty"`    // callback: which candidate id
-	Variant int    `json:"variant,omitempty"` // callback: which kind among the applicable ones; session: which message (sessionMsgs)
+	Variant int    `json:"variant,omitempty"` // callback: which kind among the applicable ones; session: which message (sessionMsgs); optask: option variant (opCmds[..].Build)
+	Latest  bool   `json:"latest,omitempty"`  // callback, src outstanding / completed: the most recently issued command task / the most recently completed task instead of Pick
+	Main    bool   `json:"main,omitempty"`    // callback, src outstanding: Pick counts command tasks only (not the mem-file chunk tasks)
+	End     bool   `json:"end,omitempty"`     // callback: the kind is one of those that end a task of the id's command (endKinds), chosen by Variant
 	AnyKind bool   `json:"anykind,omitempty"` // callback: kind drawn from all kinds instead of those of the id's command
 	Replay  bool   `json:"replay,omitempty"`  // callback: send the identical package a second time
 	Force   string `json:"force,omitempty"`   // callback: this kind (by name) instead of Variant/AnyKind
@@ -91,7 +98,7 @@ func genE(t *rapid.T) CaseE {
 	n := rapid.IntRange(1, 30).Draw(t, "nops")
 	for i := 0; i < n; i++ {
 		op := OpE{Agent: agentfx.Bits(t, "agent", 2) % c.Agents}
-		switch agentfx.Weighted(t, "kind", 26, 4, 4, 6, 52, 8) {
+		switch agentfx.Weighted(t, "kind", 26, 4, 4, 6, 52, 8, 9) {
 		case 0:
 			op.Kind = "issue"
 			op.Cmd = rapid.IntRange(0, len(issueCmds)-1).Draw(t, "cmd")
@@ -106,6 +113,41 @@ func genE(t *rapid.T) CaseE {
 		case 5:
 			op.Kind = "session"
 			op.Variant = agentfx.Bits(t, "msg", 2)
+		case 6:
+			// operator path: TaskPrepare with a generated option map; mostly followed by the
+			// life of that very task: hand-out, streamed callbacks, one of the callbacks that
+			// end a task of this command, probes with the completed id
+			op.Kind = "optask"
+			op.Cmd = agentfx.Weighted(t, "opcmd", opCmdWeights...)
+			op.Variant = agentfx.Bits(t, "opts", 7)
+			op.Text = rapid.StringOfN(rapid.RuneFrom([]rune("abcdefxyz0189")), 0, 6, -1).Draw(t, "text")
+			op.N = rapid.Uint32Range(0, 100000).Draw(t, "n")
+			c.Ops = append(c.Ops, op)
+			if agentfx.Weighted(t, "follow", 1, 3) == 0 {
+				continue
+			}
+			cb := func(src string) OpE {
+				return OpE{Kind: "callback", Agent: op.Agent, Src: src, Latest: true,
+					Variant: agentfx.Bits(t, "variant", 7),
+					Replay:  agentfx.Weighted(t, "replay", 1, 1) == 1,
+					Text:    rapid.StringOfN(rapid.RuneFrom([]rune("abcdefxyz0189")), 1, 8, -1).Draw(t, "text"),
+					N:       rapid.Uint32Range(0, 100000).Draw(t, "n")}
+			}
+			if agentfx.Bits(t, "handout", 1) == 1 {
+				c.Ops = append(c.Ops, OpE{Kind: "handout", Agent: op.Agent})
+			}
+			for k := agentfx.Bits(t, "streamed", 2) % 3; k > 0; k-- {
+				c.Ops = append(c.Ops, cb("outstanding"))
+			}
+			e := cb("outstanding")
+			e.End = true
+			c.Ops = append(c.Ops, e)
+			for k := 1 + agentfx.Bits(t, "probes", 1); k > 0; k-- {
+				p := cb("completed")
+				p.AnyKind = agentfx.Weighted(t, "anykind", 1, 1) == 1
+				c.Ops = append(c.Ops, p)
+			}
+			continue
 		default:
 			op.Kind = "callback"
 			op.Src = srcsE[agentfx.Weighted(t, "src", 34, 18, 22, 8, 18)]
@@ -127,11 +169,15 @@ type taskM struct {
 	id     uint32
 	cmd    uint32
 	doneBy string // name of the final kind whose callback completed it
+	via    string // how it was issued: queue (bare job), operator (TaskPrepare), chunk (mem-file task queued by TaskPrepare)
+	state  string // operator-side per-request state the reference tree holds for it ("" = none)
 }
 
 type agentM struct {
 	out  []*taskM // issued to this agent and not completed, in issue order
 	done []*taskM
+	// TaskIDs of operator requests that TaskPrepare refused: never queued, never issued
+	refused []uint32
 	// what the teamserver queued on its own that involves this agent (never outstanding ids)
 	ownRelay  bool // a relay job (request id 0) was queued for this agent itself
 	relayedTo bool // something was queued for a descendant, i.e. wrapped pivot jobs passed through this agent
@@ -178,7 +224,12 @@ func sessionPrint(a *agent.Agent) string {
 	if a.Pivots.Parent != nil {
 		par = a.Pivots.Parent.NameID
 	}
-	return fmt.Sprintf("%s|%v|%s|%+v|%x|%x|dl=%d|bof=%d|pf=%d|links=%d|parent=%s", a.NameID, a.Active, a.Reason, info, a.Encryption.AESKey, a.Encryption.AESIv, len(a.Downloads), len(a.BofCallbacks), len(a.PortFwds), len(a.Pivots.Links), par)
+	// what is collected for the python modules that wait for a BOF
+	bof := ""
+	for _, b := range a.BofCallbacks {
+		bof += fmt.Sprintf("%x:%d:%d,", b.TaskID, len(b.Output), len(b.Error))
+	}
+	return fmt.Sprintf("%s|%v|%s|%+v|%x|%x|dl=%d|bof=%d[%s]|pf=%d|links=%d|parent=%s", a.NameID, a.Active, a.Reason, info, a.Encryption.AESKey, a.Encryption.AESIv, len(a.Downloads), len(a.BofCallbacks), bof, len(a.PortFwds), len(a.Pivots.Links), par)
 }
 
 type worldE struct {
@@ -391,7 +442,7 @@ func checkE(c CaseE) (viol *core.Violation) {
 			for _, t := range tasks {
 				if t.Cmd == agent.COMMAND_MEM_FILE && !known[t.ReqID] && t.ReqID != 0 {
 					known[t.ReqID] = true
-					w.mod[r].out = append(w.mod[r].out, &taskM{id: t.ReqID, cmd: agent.COMMAND_MEM_FILE})
+					w.mod[r].out = append(w.mod[r].out, &taskM{id: t.ReqID, cmd: agent.COMMAND_MEM_FILE, via: "chunk"})
 				}
 			}
 		}
@@ -415,8 +466,62 @@ func checkE(c CaseE) (viol *core.Violation) {
 			known[id] = true
 			// what dispatch.go does after TaskPrepare; the task body is irrelevant here
 			ses.A.AddJobToQueue(agent.Job{RequestID: id, Command: cmd, Data: []interface{}{}})
-			m.out = append(m.out, &taskM{id: id, cmd: cmd})
+			m.out = append(m.out, &taskM{id: id, cmd: cmd, via: "queue"})
 			markRelayed(g)
+			lastE.labels["issued:bare-queued-job"] = true
+		case "optask":
+			// what cmd/server/dispatch.go does with a task request of a client: TaskPrepare with
+			// the request's option map; the job it returns is queued, a request it refuses is not.
+			// The mem-file chunk tasks TaskPrepare queues on the way carry random request ids:
+			// they are read off the agent's request list (that is "record on issue").
+			oc := opCmds[op.Cmd%len(opCmds)]
+			id := nextID
+			nextID += 0x11
+			known[id] = true
+			opts, state, _ := oc.Build(op)
+			had := map[uint32]bool{}
+			for _, t := range ses.A.Tasks {
+				had[t.RequestID] = true
+			}
+			msg := map[string]string{}
+			job, err := ses.A.TaskPrepare(int(oc.Cmd), operatorInfo(id, ses.A.NameID, oc, opts), &msg, fmt.Sprintf("client-%d", g), w.rec)
+			issued := err == nil && job != nil
+			if issued {
+				if job.RequestID != id {
+					return core.V("harness|optask", "TaskPrepare(%s) returned request id %#x for TaskID %08X", oc.Name, job.RequestID, id)
+				}
+				ses.A.AddJobToQueue(*job)
+			}
+			chunks := 0
+			for _, t := range ses.A.Tasks {
+				if !had[t.RequestID] && t.RequestID != id && t.Command == agent.COMMAND_MEM_FILE && !known[t.RequestID] {
+					known[t.RequestID] = true
+					m.out = append(m.out, &taskM{id: t.RequestID, cmd: agent.COMMAND_MEM_FILE, via: "chunk"})
+					chunks++
+				}
+			}
+			lastE.labels["issued:operator-path:"+oc.Name] = true
+			if chunks > 0 {
+				lastE.labels["operator-path-queued-chunk-tasks"] = true
+			}
+			if issued {
+				m.out = append(m.out, &taskM{id: id, cmd: oc.Cmd, via: "operator", state: state})
+				if state != "" {
+					lastE.labels["operator-state:"+state] = true
+				} else if oc.Cmd == agent.COMMAND_INLINEEXECUTE {
+					lastE.labels["operator-state:bof-without-callback"] = true
+				}
+			} else {
+				m.refused = append(m.refused, id)
+				lastE.labels["operator-request-refused:"+oc.Name] = true
+				if state != "" {
+					lastE.labels["operator-state:"+state] = true
+				}
+			}
+			if chunks > 0 || issued {
+				markRelayed(g)
+			}
+			w.rec.Take()
 		case "upload":
 			// operator fs upload: TaskPrepare queues the mem-file chunk tasks (random request ids)
 			// itself, dispatch.go queues the command.  Only for directly connected agents, where
@@ -439,7 +544,8 @@ func checkE(c CaseE) (viol *core.Violation) {
 				return core.V("harness|upload", "TaskPrepare(fs upload) failed: %v", err)
 			}
 			ses.A.AddJobToQueue(*job)
-			m.out = append(m.out, &taskM{id: id, cmd: agent.COMMAND_FS})
+			m.out = append(m.out, &taskM{id: id, cmd: agent.COMMAND_FS, via: "operator"})
+			lastE.labels["issued:operator-path:fs-upload"] = true
 			w.rec.Take()
 		case "relay":
 			// what the SOCKS reader goroutine queues (demons.go, socks add handler): no request id
@@ -493,23 +599,42 @@ func checkE(c CaseE) (viol *core.Violation) {
 			// ---- choose id and kind
 			var id uint32
 			var viaCmd uint32
+			var picked *taskM
 			haveCmd := false
 			doneBy := ""
 			src := op.Src
 			switch src {
 			case "outstanding":
-				if len(m.out) == 0 {
+				cand := m.out
+				if op.Main || op.Latest {
+					cand = nil
+					for _, t := range m.out {
+						if t.via != "chunk" {
+							cand = append(cand, t)
+						}
+					}
+					if len(cand) == 0 && op.Latest {
+						cand = m.out
+					}
+				}
+				if len(cand) == 0 {
 					src = "never"
 				} else {
-					t := m.out[op.Pick%len(m.out)]
-					id, viaCmd, haveCmd = t.id, t.cmd, true
+					t := cand[op.Pick%len(cand)]
+					if op.Latest {
+						t = cand[len(cand)-1]
+					}
+					id, viaCmd, haveCmd, picked = t.id, t.cmd, true, t
 				}
 			case "completed":
 				if len(m.done) == 0 {
 					src = "never"
 				} else {
 					t := m.done[op.Pick%len(m.done)]
-					id, viaCmd, haveCmd, doneBy = t.id, t.cmd, true, t.doneBy
+					if op.Latest {
+						t = m.done[len(m.done)-1]
+					}
+					id, viaCmd, haveCmd, doneBy, picked = t.id, t.cmd, true, t.doneBy, t
 				}
 			case "foreign":
 				// ids outstanding elsewhere; those of g's own descendants (whose wrapped tasks
@@ -542,6 +667,11 @@ func checkE(c CaseE) (viol *core.Violation) {
 					}
 				}
 			}
+			if src == "never" && len(m.refused) > 0 && op.Pick%2 == 1 {
+				// the TaskID of an operator request that TaskPrepare refused: never queued
+				src = "refused"
+				id = m.refused[op.Pick/2%len(m.refused)]
+			}
 			if src == "never" {
 				id = 0x7e000000 + uint32(i)*0x101 + op.N%0x100
 				for known[id] {
@@ -554,6 +684,8 @@ func checkE(c CaseE) (viol *core.Violation) {
 			var k kind
 			if fk, ok := kindByName[op.Force]; ok {
 				k = fk
+			} else if ek := endKinds(viaCmd); op.End && haveCmd && len(ek) > 0 {
+				k = ek[op.Variant%len(ek)]
 			} else if haveCmd && (!op.AnyKind || src == "outstanding") {
 				app := append(append([]int{}, kindsByCmd[viaCmd]...), genericIdx...)
 				k = kinds[app[op.Variant%len(app)]]
@@ -614,6 +746,16 @@ func checkE(c CaseE) (viol *core.Violation) {
 				if k.Final && had {
 					t := m.find(id)
 					t.doneBy = k.Name
+					if t.via == "operator" {
+						st := t.state
+						if st == "" {
+							st = "no-state"
+						}
+						lastE.labels["operator-task-ended-by-final-callback"] = true
+						if t.cmd == agent.COMMAND_INLINEEXECUTE {
+							lastE.labels["operator-task-ended:"+k.Name+"/"+st] = true
+						}
+					}
 					for j := range m.out {
 						if m.out[j] == t {
 							m.out = append(m.out[:j], m.out[j+1:]...)
@@ -625,7 +767,17 @@ func checkE(c CaseE) (viol *core.Violation) {
 			default:
 				// (1) no effect at all
 				lastE.rejected++
-				if !k.Quiet && (src == "completed" || src == "foreign" || src == "descendant") {
+				if src == "completed" && picked != nil && picked.via == "operator" {
+					st := picked.state
+					if st == "" {
+						st = "no-state"
+					}
+					lastE.labels["rejected-after-operator-task-ended/"+st] = true
+					if picked.cmd == agent.COMMAND_INLINEEXECUTE {
+						lastE.labels["rejected-after-operator-task-ended:"+doneBy+"/"+st] = true
+					}
+				}
+				if !k.Quiet && (src == "completed" || src == "foreign" || src == "descendant" || src == "refused") {
 					lastE.rejectedPlausible[src+"/"+kindClass(k)] = true
 				}
 				lastE.labels["rejected:"+src] = true
@@ -687,6 +839,8 @@ func srcText(src string) string {
 		return "outstanding at an SMB descendant of this agent only"
 	case "never":
 		return "never issued"
+	case "refused":
+		return "the TaskID of an operator request that TaskPrepare refused, never issued"
 	case "zero":
 		return "zero, never issued to anybody"
 	}
@@ -779,7 +933,7 @@ func classifyE(c CaseE) core.Class {
 func TestC05a(t *testing.T) {
 	core.Run(t, core.Spec[CaseE]{
 		Property: "C05", Sub: "a",
-		Rule: fmt.Sprintf("histories of 1-30 operations over a forest of 2-4 agents (roots registered through the real agent endpoint, SMB children linked by a real SMB_CONNECT callback of their parent, depth <= 2; tsx.Recorder as teamserver, private loot tree, SendLogs on in 1/4 of the cases): issue a task to any agent (AddJobToQueue with a fresh request id, one of %d commands; for a child it is wrapped into COMMAND_PIVOT jobs of its ancestors), operator fs-upload (mem-file chunk tasks, direct agents), relay job without request id (SOCKS write), hand-out, a session-level message of an agent for its own id (DEMON_INIT again with the same or another key and metadata - for a pivot child a repeated SMB_CONNECT by its parent -, a plain check-in), callback = one of %d well-formed callback kinds (payloads as Package.c builds them) sent by any agent - directly or relayed hop by hop as COMMAND_PIVOT/SMB_COMMAND - carrying an id from {own outstanding, own completed, outstanding at a descendant / at another agent, never issued, 0}, optionally replayed byte for byte. Oracle: (1) a callback whose id was not issued to THAT agent or is completed (kind not socket/pivot, not beacon-output with SendLogs) records nothing beyond the bookkeeping of a body-less request on the same path, leaves every agent's outstanding-id list, session data and the loot tree unchanged - whatever else the teamserver queued for or through that agent; (2) after a callback from the finality table was processed with an outstanding id, the same package again, and any later callback with that id, has no effect. Non-trivial: a rejected callback of an effectful kind whose id was completed, foreign or a descendant's; distinct = (pivot depth, SendLogs, set of plausible rejected id sources, set of contexts in which id 0 was probed)", len(issueCmds), len(kinds)),
+		Rule: fmt.Sprintf("histories of 1-30 operations over a forest of 2-4 agents (roots registered through the real agent endpoint, SMB children linked by a real SMB_CONNECT callback of their parent, depth <= 2; tsx.Recorder as teamserver, private loot tree, SendLogs on in 1/4 of the cases): issue a task to any agent (AddJobToQueue with a fresh request id, one of %d commands; for a child it is wrapped into COMMAND_PIVOT jobs of its ancestors), operator fs-upload (mem-file chunk tasks, direct agents), an operator task request to any agent through the real TaskPrepare with a generated option map, queued like dispatch.go does (%d commands: inline execute with HasCallback true / false / absent - true registers a BofCallbacks entry keyed by the request id -, all flag values, object file and argument sizes 0-599 / 0-39 bytes, each uploaded as mem-file chunk tasks with request ids of their own; dotnet inline execute (assembly as mem-file); sleep, exit, checkin, proc list, screenshot, dotnet list-versions, job list; in about 1/3 of the inline-execute requests and 1/8 of the sleep / exit requests an option is missing or undecodable, so that TaskPrepare refuses the request after it may already have registered the callback entry and queued chunk tasks: such a TaskID was never issued and is probed as id source refused), in 3/4 of the cases followed by the life of that very task: hand-out, 0-2 streamed callbacks with its id, one of the callbacks that end a task of its command (inline execute: ran-ok / could-not-run / exception / symbol-not-found, dotnet: failed, else the command's final kinds) optionally replayed, 1-2 probes with the id just completed; relay job without request id (SOCKS write), hand-out, a session-level message of an agent for its own id (DEMON_INIT again with the same or another key and metadata - for a pivot child a repeated SMB_CONNECT by its parent -, a plain check-in), callback = one of %d well-formed callback kinds (payloads as Package.c builds them) sent by any agent - directly or relayed hop by hop as COMMAND_PIVOT/SMB_COMMAND - carrying an id from {own outstanding, own completed, outstanding at a descendant / at another agent, never issued, 0}, optionally replayed byte for byte. Oracle: (1) a callback whose id was not issued to THAT agent or is completed (kind not socket/pivot, not beacon-output with SendLogs) records nothing beyond the bookkeeping of a body-less request on the same path, leaves every agent's outstanding-id list, session data and the loot tree unchanged - whatever else the teamserver queued for or through that agent; (2) after a callback from the finality table was processed with an outstanding id, the same package again, and any later callback with that id, has no effect. Non-trivial: a rejected callback of an effectful kind whose id was completed, foreign or a descendant's; distinct = (pivot depth, SendLogs, set of plausible rejected id sources, set of contexts in which id 0 was probed)", len(issueCmds), len(opCmds), len(kinds)),
 		Gen:  genE, Check: checkE, Classify: classifyE,
 		Assumptions: []string{
 			"finality table: a callback kind ends its task only where the Demon handler (payloads/Demon/src/core/Command.c) transmits exactly one package of that kind as its last action and starts nothing that reports later; streaming/asynchronous kinds never complete a task in the model",
@@ -787,6 +941,8 @@ func TestC05a(t *testing.T) {
 			"a task counts as outstanding from the moment it is queued; callbacks are only generated after everything queued in the sender's tree was handed out",
 			"only COMMAND_SOCKET dials out (PortFwdOpen) and the statement exempts it, so the outbound-connection clause has no non-exempt carrier and is not probed with a listener",
 			"callback payloads are well-formed; malformed ones belong to C01",
+			"inline execute: the reference teamserver ends the request on whichever of RAN_OK / COULD_NO_RUN / EXCEPTION / SYMBOL_NOT_FOUND it processes first (with or without a registered BofCallbacks entry); all four are final in the table, although the Demon sends its closing RAN_OK / COULD_NO_RUN after an EXCEPTION / SYMBOL_NOT_FOUND: that closing package then carries a completed id",
+			"an operator request that TaskPrepare refuses is never queued, so its TaskID was never issued - whatever TaskPrepare registered or queued for it before it found the defect; the mem-file chunk tasks TaskPrepare queues carry random request ids, which the harness reads off the agent's request list right after the call (record on issue), they count as issued to that agent",
 		},
 	})
 }
